@@ -693,6 +693,14 @@ def exact_value(t: Term, ev: OrderEval, alg) -> Any:  # type: ignore[no-untyped-
                     return alg.fn("abs", go(args[0]))
                 if short == "negative":
                     return -go(args[0])
+                if short == "sign" and len(args) == 1:
+                    la = lf.lin(args[0])
+                    s_ = lf.sign(la) if la is not None else None
+                    if s_ is None:
+                        s_ = rat_sign(go(args[0]), lf, alg)
+                    if s_ is None:
+                        raise NotAlgebraic("undecided sign")
+                    return num(-1 if s_ == NEG else (0 if s_ == ZERO else 1))
                 if short in ("power", "float_power", "pow") and len(args) == 2:
                     return power(go(args[0]), args[1])
                 if short in ("min", "max", "minimum", "maximum", "fmin", "fmax") and len(args) == 2:
